@@ -30,7 +30,15 @@ def run(ctx):
              "arrival order relative to the polls) + NEG counterexamples + corpus (3 services); executed on the real "
              "ServerWorker future; per poll the services' own log (poll_ready answers, calls, creations) is judged by TLC; "
              "non-trivial = a connection is served after some service answered not-ready")
+    # end to end through the public API: a failed readiness check rebuilds that service and only it, from its own factory
+    # (Builder.tla: one more instance of that call's factory, every socket still answered by its own call's service)
+    import srvbuilder
+    srvbuilder.run(ctx, n_quick=24)
 
 
 def replay(ctx, path):
+    import json as _j
+    if _j.load(open(path))["replay"].get("mode") == "builder":
+        import srvbuilder
+        return srvbuilder.replay(ctx, path)
     workerflow.replay(ctx, path, INV)
